@@ -182,6 +182,8 @@ DEGENERATE = [["--ifs", ""], ["--ips", ""], ["--irs", ""], ["--ifs-regex", ""], 
               ["--records-per-batch", "0"], ["--records-per-batch", "-1"], ["--nr-progress-mod", "0"], ["--nr-progress-mod", "-3"],
               ["--ifs", "semicolon", "--ips", "semicolon"], ["--ifs", "a", "--ips", "a"], ["--ifs", "\"", "--quote-all"], ["--ifs", "\r"],
               ["--implicit-csv-header", "--headerless-csv-input"], ["--allow-ragged-csv-input", "--implicit-csv-header"], ["--repifs", "--ifs", ""],
+              ["--igen", "--gen-step", "0"], ["--igen", "--gen-start", "2", "--gen-stop", "9", "--gen-step", "0.0"], ["--igen", "--gen-start", "x"],
+              ["--igen", "--gen-stop", "3", "--gen-step", "-1"], ["--igen", "--gen-start", "5", "--gen-stop", "5", "--gen-step", "0"],
               ["--ifs", "\u00e9"], ["--ifs", "\xff"], ["--ips", "\xff\xfe"], ["--irs", "\xff"]]
 
 
@@ -237,9 +239,33 @@ def build_verbs_case(r, tier):
             "cseed": r.randint(1, 1 << 40), "nconf": 2, "big": False}
 
 
+def build_join_case(r, tier):
+    """join's own reader of the left file: the same (damaged, commented) documents, options inherited from the main flags."""
+    flags, data, fmt = make_doc(r)
+    orig = data
+    muts = []
+    lines = data.split(b"\n")
+    if r.chance(0.7) and fmt not in ("json", "yaml", "usv", "asv"):
+        for _ in range(r.choice([1, 1, 2, 3])):
+            lines.insert(r.below(len(lines) + 1), r.choice([b"#hello", b"# a=1,b=2", b"#", b"#\"quote"]))
+        data = b"\n".join(lines)
+        muts.append("comments")
+        if not any(f in flags for f in ("--pass-comments", "--skip-comments")):
+            flags = flags + [r.choice(["--pass-comments", "--pass-comments", "--skip-comments"])]
+    for _ in range(r.choice([0, 0, 1, 2])):
+        data, what = mutate(r, data)
+        muts.append(what)
+    j = ["join", "-j", r.choice(["a", "a", "b", "1", "a,b"])] + r.choice([[], ["--ul"], ["--ul", "--ur"], ["--np", "--ul"]]) + (["-s"] if r.chance(0.5) else []) + ["-f", "left.dat"]
+    return {"kind": "join", "fmt": "join-" + fmt, "flags": flags, "data": orig.decode("latin1"), "name": "in.dat", "mutations": muts, "faults": [],
+            "extra_files": {"left.dat": data.decode("latin1")}, "verbs": j, "oflags": r.choice([["--ojson"], [], ["--oxtab"]]), "stdin": False,
+            "cseed": r.randint(1, 1 << 40), "nconf": 3, "big": False}
+
+
 def build_case(r, tier):
     if r.chance(0.2):
         return build_verbs_case(r, tier)
+    if r.chance(0.08):
+        return build_join_case(r, tier)
     flags, data, fmt = make_doc(r)
     muts = []
     nm = r.choice([0, 1, 1, 1, 2, 2, 4])
@@ -299,6 +325,8 @@ def evaluate(case, chk):
     else:
         args = args + [case["name"]]
         kw["files"] = {case["name"]: data}
+        for k, v in (case.get("extra_files") or {}).items():
+            kw["files"][k] = v.encode("latin1")
     if case.get("configs") is None:
         rng = Rng(case["cseed"], "cfg")
         cfgs = []
